@@ -589,9 +589,14 @@ def walk_class(ctx, prop, base, safe, ix, j, sf, d, c, path):
                 if f["is_public"] or not f["name"].startswith("_"):
                     inherited.setdefault(f["name"], []).append(f)
     seen = {}
+    counts = {}
+    for mem in d.members:
+        counts[mem.pyname] = counts.get(mem.pyname, 0) + 1
     for mem in d.members:
         nm = mem.pyname
         seen[nm] = seen.get(nm, 0) + 1
+        if counts[nm] > 1 and mem.kind in ("fun", "attr") and prop not in ("C17", "C03", "C04"):
+            continue            # emitted twice (private diamond, K17): which source it stands for is undecidable here
         if mem.kind == "class":
             inner = next((k for k in c["classes"] if k["name"] == nm), None)
             if inner is None:
